@@ -223,6 +223,40 @@ def search(ctx):
             except Exception as e:  # noqa: BLE001
                 bad += 1
                 ctx.fail(f"eq:raises:{cls}", f"{cls}: equality / hash / copy raised {type(e).__name__}: {str(e)[:80]}", {"kind": kind, "n": n, "seed": seed})
+    # rectangular block matrices (not in the square zoo): every layout of blocks incl. identity / scaled-identity blocks, which return (views of) their argument
+    for cls_name in ("BlockRowMatrix", "BlockColumnMatrix"):
+        for layout in (("I", "A"), ("A", "I"), ("I", "I", "A"), ("S", "A"), ("A", "D", "I")):
+            brng = np.random.default_rng(int(rng.integers(0, 2 ** 31)))
+            n = 3
+            mk = {"I": lambda: (mm.IdentityMatrix(n), np.eye(n)), "S": lambda: (mm.ScaledIdentityMatrix(1.7, n), 1.7 * np.eye(n)),
+                  "D": lambda: (lambda d: (mm.DiagonalMatrix(d), np.diag(d)))(brng.uniform(0.5, 2, n)),
+                  "A": lambda: (lambda a: (mm.DenseSquareMatrix(a), a))(brng.standard_normal((n, n)) + 2 * np.eye(n))}
+            parts = [mk[k]() for k in layout]
+            M = getattr(mm, cls_name)([p_[0] for p_ in parts])
+            dense = np.hstack([p_[1] for p_ in parts]) if cls_name == "BlockRowMatrix" else np.vstack([p_[1] for p_ in parts])
+            r, c_ = dense.shape
+            ops = {"M@v": (lambda M=M, x=None: None)}
+            for opname, mkarg, f, ref in (("M@v", lambda: brng.standard_normal(c_), lambda x: M @ x, lambda x: dense @ x),
+                                          ("M@V", lambda: brng.standard_normal((c_, 2)), lambda x: M @ x, lambda x: dense @ x),
+                                          ("W@M", lambda: brng.standard_normal((2, r)), lambda x: x @ M, lambda x: x @ dense),
+                                          ("M.T@v", lambda: brng.standard_normal(r), lambda x: M.T @ x, lambda x: dense.T @ x),
+                                          ("M.T@V", lambda: brng.standard_normal((r, 2)), lambda x: M.T @ x, lambda x: dense.T @ x)):
+                x = mkarg()
+                x0 = x.copy()
+                try:
+                    got = np.asarray(f(x))
+                except Exception as e:  # noqa: BLE001
+                    bad += 1
+                    ctx.fail(f"op:raises:{cls_name}:{opname}", f"{cls_name}{layout}: {opname} raised {type(e).__name__}: {str(e)[:80]}", {"class": cls_name, "layout": layout, "op": opname})
+                    continue
+                ctx.case(("blockrect", cls_name, layout, opname))
+                ctx.count("search:rectangular_blocks")
+                if not np.array_equal(x, x0):
+                    bad += 1
+                    ctx.fail(f"caller_array_modified:{cls_name}:{opname}", f"{cls_name} with blocks {layout}: {opname} modified the caller's array", {"class": cls_name, "layout": layout, "op": opname})
+                elif not np.allclose(got, ref(x0), rtol=1e-10, atol=1e-12):
+                    bad += 1
+                    ctx.fail(f"value:{cls_name}:{opname}", f"{cls_name} with blocks {layout}: {opname} differs from the dense computation", {"class": cls_name, "layout": layout, "op": opname})
     ctx.oblige("search: every matrix class x sizes: all orders of first lazy accesses, operands and caller arrays bitwise unchanged by every operation, "
                "parameters frozen, eq / hash / copy / deepcopy / pickle", bad == 0, f"{bad} failures")
 
